@@ -18,6 +18,9 @@ void harness(void)
 	int r;
 	VF_LOAD_IN();
 	C21_LOAD(B, CFG, IN);
+#ifdef C21_SMALL
+	__CPROVER_assume(IN.rm < 256 && IN.wm < 256 && IN.rl > -256 && IN.rl < 512 && IN.wl > -256 && IN.wl < 512 && (ev_uint32_t)(IN.cur - IN.last) < 16);
+#endif
 	r = VF_CALL(tb_update_spec_c, ev_token_bucket_update_, &B, &CFG, IN.cur);
 	(void)r;
 #ifdef VF_CANARY
